@@ -339,20 +339,34 @@ def sgConstruct (m : MemGeff) (axes : Option (List String)) : Except Err SgGraph
             .ok { directed := m.directed, ndims := names.length, posDtype := pd, nodes := m.nodeIds,
                   position := pos, nodeAttrs := rest, edges := m.edgeIds, edgeAttrs := m.edgeProps }
 
-/-- `SgBackend.write` + the unsquish of `write_props_arrays`: the in-memory geff handed to the store -/
-def sgWrite (g : SgGraph) (axisNames : List String) : Except Err MemGeff := do
-  if g.ndims ≠ axisNames.length ∧ !g.nodes.isEmpty then throw Err.valueError
-  -- unsquish: column i of `position` becomes the property `axisNames[i]`
-  let axisCols ← mapE (fun k => do
-    let rows ← mapE (fun (r : List Val) => match r[k]? with
-      | some v => .ok (([], [v]) : Row)
-      | none => .error Err.indexError) g.position
-    return ((axisNames.getD k ""), ({ dtype := g.posDtype, varlen := false, rows := rows, missing := none } : Col)))
-    (List.range axisNames.length)
-  -- `props.update` : an axis name replaces an attribute of the same name; `position` itself is deleted
-  let others := g.nodeAttrs.filter (fun p => !axisNames.contains p.1)
-  return { directed := g.directed, nodeIds := g.nodes, edgeIds := g.edges,
-           nodeProps := others ++ axisCols, edgeProps := g.edgeAttrs }
+/-- column `k` of `position` as the scalar property `name` (`values[:, k]`; `IndexError` beyond
+the width of `position`) -/
+def cellRow (k : Nat) (r : List Val) : Except Err Row :=
+  match r[k]? with
+  | some v => .ok ([], [v])
+  | none => .error .indexError
+
+def axisColumn (g : SgGraph) (name : String) (k : Nat) : Except Err (String × Col) :=
+  match mapE (cellRow k) g.position with
+  | .error e => .error e
+  | .ok rows => .ok (name, { dtype := g.posDtype, varlen := false, rows := rows, missing := none })
+
+/-- `enumerate(axis_names)` -/
+def enumNames (l : List String) : List (String × Nat) := l.zip (List.range l.length)
+
+/-- `SgBackend.write` + the unsquish of `write_props_arrays`: the in-memory geff handed to the
+store.  `ValueError` when `ndims` differs from the number of axis names (non-empty graph); column
+`i` of `position` becomes the property `axis_names[i]` (`props.update`: an axis name replaces an
+attribute of the same name), `position` itself is deleted. -/
+def sgWrite (g : SgGraph) (axisNames : List String) : Except Err MemGeff :=
+  if g.ndims ≠ axisNames.length ∧ !g.nodes.isEmpty then .error .valueError
+  else
+    match mapE (fun (p : String × Nat) => axisColumn g p.1 p.2) (enumNames axisNames) with
+    | .error e => .error e
+    | .ok axisCols =>
+      .ok { directed := g.directed, nodeIds := g.nodes, edgeIds := g.edges,
+            nodeProps := g.nodeAttrs.filter (fun p => !axisNames.contains p.1) ++ axisCols,
+            edgeProps := g.edgeAttrs }
 
 /-- `SgGraphAdapter.get_node_prop`: an axis name indexes `position`, anything else the attribute
 (`has_node_prop` is always true: spatial-graph has no missing values) -/
